@@ -73,6 +73,7 @@ type Node struct {
 	Kind   Kind
 	Target string
 	Nlink  int
+	FS     int // directories: the hierarchy ("file system") they belong to
 
 	Entries  []*Entry
 	Deleted  bool
@@ -110,6 +111,7 @@ type Model struct {
 	Shared   bool // symlinks with equal targets are one node
 	Nodes    []*Node
 	Root     *Node
+	Roots    []*Node
 	symlinks map[string]*Node
 	Sessions []*Session
 	seq      int
@@ -124,7 +126,18 @@ func NewModel(cfg Config, shared bool) *Model {
 	m := &Model{CI: cfg.CaseInsensitive, Hidden: cfg.HiddenPattern, Shared: shared, symlinks: map[string]*Node{}, Sit: map[string]int{}}
 	m.Root = m.newNode(KDir)
 	m.Root.Lazy = &LazySpec{Children: map[string]*LazyChild{}} // EmptyInitialContentsFetcher
+	m.Roots = []*Node{m.Root}
 	return m
+}
+
+// NewForeignRoot adds the root of another hierarchy. Directories cannot be
+// moved between hierarchies (EXDEV), leaves can.
+func (m *Model) NewForeignRoot() *Node {
+	n := m.newNode(KDir)
+	n.Lazy = &LazySpec{Children: map[string]*LazyChild{}}
+	n.FS = len(m.Roots)
+	m.Roots = append(m.Roots, n)
+	return n
 }
 
 func (m *Model) sit(name string) { m.Sit[name]++ }
@@ -135,8 +148,9 @@ func (m *Model) newNode(k Kind) *Node {
 	return n
 }
 
-func (m *Model) newDir(lazy *LazySpec) *Node {
+func (m *Model) newDir(lazy *LazySpec, fs int) *Node {
 	n := m.newNode(KDir)
+	n.FS = fs
 	if lazy == nil {
 		lazy = &LazySpec{Children: map[string]*LazyChild{}}
 	}
@@ -267,7 +281,7 @@ func (m *Model) materialize(d *Node) bool {
 		c := spec.Children[name]
 		var n *Node
 		if c.Kind == KDir {
-			n = m.newDir(c.Sub)
+			n = m.newDir(c.Sub, d.FS)
 		} else {
 			n = m.newLeaf(c.Kind, c.Target)
 			n.spec = c
@@ -475,7 +489,7 @@ func (m *Model) Mkdir(d *Node, name string) Result {
 		return fail(s)
 	}
 	c := m.ci(d)
-	n := m.newDir(nil)
+	n := m.newDir(nil, d.FS)
 	m.attach(d, name, n)
 	return Result{Status: OK, Node: n, CI: []*CIExpect{c.done()}}
 }
@@ -587,6 +601,10 @@ func (m *Model) Rename(dOld *Node, oldName string, dNew *Node, newName string) R
 				m.sit("rename-dir-onto-itself")
 				return ok()
 			}
+			if dOld.FS != dNew.FS {
+				m.sit("rename-directory-across-file-systems")
+				return fail(EXDEV)
+			}
 			if !m.materialize(newE.Node) {
 				return fail(EIO)
 			}
@@ -629,6 +647,13 @@ func (m *Model) Rename(dOld *Node, oldName string, dNew *Node, newName string) R
 	oldE := m.find(dOld, oldName)
 	if oldE == nil {
 		return fail(ENOENT)
+	}
+	if oldE.Node.IsDir() && dOld.FS != dNew.FS {
+		m.sit("rename-directory-across-file-systems")
+		return fail(EXDEV)
+	}
+	if dOld.FS != dNew.FS {
+		m.sit("rename-leaf-across-file-systems")
 	}
 	m.sit("rename-to-new-name")
 	m.sit("rename-" + cross)
@@ -731,7 +756,7 @@ func (m *Model) CreateChildren(d *Node, children []NewChild, overwrite bool) Res
 		var n *Node
 		switch {
 		case c.Kind == KDir:
-			n = m.newDir(c.Lazy)
+			n = m.newDir(c.Lazy, d.FS)
 		case c.Node != nil:
 			n = c.Node
 		default:
@@ -761,7 +786,7 @@ func (m *Model) Enter(d *Node, name string) Result {
 		m.sit("enter-replaces-leaf")
 		m.detach(d, e)
 		m.unlinkLeaf(e.Node)
-		n := m.newDir(nil)
+		n := m.newDir(nil, d.FS)
 		m.attach(d, name, n)
 		return Result{Status: OK, Node: n}
 	}
@@ -769,7 +794,7 @@ func (m *Model) Enter(d *Node, name string) Result {
 		m.sit("create-in-removed-directory")
 		return fail(ENOENT)
 	}
-	n := m.newDir(nil)
+	n := m.newDir(nil, d.FS)
 	m.attach(d, name, n)
 	return Result{Status: OK, Node: n}
 }
